@@ -27,18 +27,62 @@ type ackImage struct {
 }
 
 func runConcDurability(seed int64, rollover int64, pubs int, ms int, st *Stats) string {
+	return runConcDurabilityMode(seed, rollover, pubs, ms, st, false)
+}
+
+// autoSync mode: every Publish return is an acknowledgement too (sampled), and so is Close.
+func runConcDurabilityMode(seed int64, rollover int64, pubs int, ms int, st *Stats, autoSync bool) string {
 	root := MkScratch("vf-c06c-")
 	defer os.RemoveAll(root)
 	dir := filepath.Join(root, "log")
 	img := filepath.Join(root, "img")
 	_ = os.MkdirAll(dir, 0700)
-	opts := klevdb.Options{KeyIndex: true, TimeIndex: true, Rollover: rollover}
+	opts := klevdb.Options{KeyIndex: true, TimeIndex: true, Rollover: rollover, AutoSync: autoSync}
 	l, err := klevdb.Open(dir, opts)
 	if err != nil {
 		return "open: " + err.Error()
 	}
 	var mu sync.Mutex
 	synced := map[string]int{}
+	var imgMu sync.Mutex
+	var images []ackImage
+	takeImage := func(w int64) {
+		// durable state as of this acknowledgement. The directory is listed BEFORE the fsynced lengths are
+		// copied: a file in the listing was created before the copy, and the rollover that created it had
+		// fsynced the previous head before that, so the image never shows a new head next to a stale length
+		es, _ := os.ReadDir(dir)
+		mu.Lock()
+		sc := make(map[string]int, len(synced))
+		for k, v := range synced {
+			sc[k] = v
+		}
+		mu.Unlock()
+		im := ackImage{w: w, files: map[string][]byte{}}
+		for _, en := range es {
+			n := en.Name()
+			if n == ".lock" {
+				continue
+			}
+			ln := sc[n]
+			var b []byte
+			if ln > 0 {
+				f, err := os.Open(filepath.Join(dir, n))
+				if err == nil {
+					b = make([]byte, ln)
+					k, _ := f.ReadAt(b, 0)
+					b = b[:k]
+					_ = f.Close()
+				}
+			}
+			im.files[n] = b
+			im.lens += fmt.Sprintf(" %s:%d", strings.TrimLeft(n, "0"), len(b))
+		}
+		imgMu.Lock()
+		if len(images) < 400 {
+			images = append(images, im)
+		}
+		imgMu.Unlock()
+	}
 	verifhook.SetFS(func(op, site, p1, p2 string) {
 		if filepath.Dir(p1) != dir {
 			return
@@ -81,14 +125,17 @@ func runConcDurability(seed int64, rollover int64, pubs int, ms int, st *Stats) 
 				for j := range msgs {
 					msgs[j] = klevdb.Message{Time: time.UnixMicro(int64(1000 + i)), Key: winKeys[(i+j)%len(winKeys)], Value: []byte(fmt.Sprintf("p%d-%d-%d", p, i, j))}
 				}
-				if _, err := l.Publish(msgs); err != nil {
+				w, err := l.Publish(msgs)
+				if err != nil {
 					failure.Store("Publish failed: " + err.Error())
 					return
+				}
+				if autoSync && i%7 == p {
+					takeImage(w) // with AutoSync the return of Publish acknowledges w
 				}
 			}
 		}(p)
 	}
-	var images []ackImage
 	wg.Add(1)
 	go func() {
 		defer wg.Done()
@@ -103,39 +150,7 @@ func runConcDurability(seed int64, rollover int64, pubs int, ms int, st *Stats) 
 				failure.Store("Sync failed: " + err.Error())
 				return
 			}
-			// durable state as of the return of Sync. The directory is listed BEFORE the fsynced lengths are
-			// copied: a file in the listing was created before the copy, and the rollover that created it had
-			// fsynced the previous head before that, so the image never shows a new head next to a stale length
-			es, _ := os.ReadDir(dir)
-			mu.Lock()
-			sc := make(map[string]int, len(synced))
-			for k, v := range synced {
-				sc[k] = v
-			}
-			mu.Unlock()
-			im := ackImage{w: w, files: map[string][]byte{}}
-			for _, en := range es {
-				n := en.Name()
-				if n == ".lock" {
-					continue
-				}
-				ln := sc[n]
-				var b []byte
-				if ln > 0 {
-					f, err := os.Open(filepath.Join(dir, n))
-					if err == nil {
-						b = make([]byte, ln)
-						k, _ := f.ReadAt(b, 0)
-						b = b[:k]
-						_ = f.Close()
-					}
-				}
-				im.files[n] = b
-				im.lens += fmt.Sprintf(" %s:%d", strings.TrimLeft(n, "0"), len(b))
-			}
-			if len(images) < 400 {
-				images = append(images, im)
-			}
+			takeImage(w)
 			time.Sleep(200 * time.Microsecond)
 		}
 	}()
@@ -143,8 +158,12 @@ func runConcDurability(seed int64, rollover int64, pubs int, ms int, st *Stats) 
 	close(stop)
 	wg.Wait()
 	verifhook.SetPause(nil)
+	next, _ := l.NextOffset()
+	if err := l.Close(); err != nil {
+		return "Close failed: " + err.Error()
+	}
+	takeImage(next) // Close acknowledges everything
 	verifhook.SetFS(nil)
-	_ = l.Close()
 	if f := failure.Load(); f != nil {
 		return f.(string)
 	}
@@ -193,7 +212,7 @@ func TestC06Concurrent(t *testing.T) {
 	for i := 0; i < rounds; i++ {
 		ro := []int64{150, 400, 1 << 20}[(int(seed)+i)%3]
 		pubs := 2 + (int(seed)+i)%3
-		if msg := runConcDurability(seed+int64(i), ro, pubs, ms, st); msg != "" {
+		if msg := runConcDurabilityMode(seed+int64(i), ro, pubs, ms, st, i%3 == 2); msg != "" {
 			v := &Violation{Oracle: "durability", Msg: fmt.Sprintf("concurrent publishers=%d rollover=%d: %s", pubs, ro, msg)}
 			path := WriteReplay("C06", "stress", v, map[string]any{"publishers": pubs, "rollover": ro, "seed": seed + int64(i), "note": "free-running schedule: not reproducible by construction; this file is the recorded evidence"})
 			fmt.Printf("%v\nVIOLATION property=C06 replay=%s\n", v, path)
